@@ -19,9 +19,18 @@ const (
 )
 
 type item struct {
-	kind itemKind
-	text string
-	ob   *Oblig
+	kind  itemKind
+	text  string
+	ob    *Oblig
+	group string // facts of a named group are only visible to obligations of the same group
+}
+
+// groupOf extracts the proof group of a clause tag: "[C11.down.from~mv]" -> "mv".
+func groupOf(tag string) string {
+	if i := strings.Index(tag, "~"); i >= 0 {
+		return tag[i+1:]
+	}
+	return ""
 }
 
 type Oblig struct {
@@ -117,6 +126,8 @@ type FG struct {
 	strLits map[string]string
 	applyDecl map[string]bool
 	nobl int
+	curGroup string
+	stepApplied map[string]int
 	isLemma bool
 	closures map[ssa.Value]*closureInfo
 	retCount int
@@ -167,7 +178,7 @@ func (fg *FG) assume(f string) {
 	if f == "" || f == "true" {
 		return
 	}
-	fg.items = append(fg.items, item{kind: itAssume, text: "(assert " + f + ")"})
+	fg.items = append(fg.items, item{kind: itAssume, text: "(assert " + f + ")", group: fg.curGroup})
 }
 
 // define introduces a named constant equal to term (keeps queries readable and terms small).
@@ -234,7 +245,7 @@ func (fg *FG) oblig1(kind, name, tag, guard, goal, src, pos string) *Oblig {
 	fg.items = append(fg.items, item{kind: itOblig, ob: o})
 	// after being checked, the fact may be used by later obligations
 	if kind != "cover" {
-		fg.items = append(fg.items, item{kind: itAssume, text: fmt.Sprintf("(assert (=> %s %s))", guard, goal)})
+		fg.items = append(fg.items, item{kind: itAssume, text: fmt.Sprintf("(assert (=> %s %s))", guard, goal), group: groupOf(tag)})
 	}
 	return o
 }
